@@ -460,7 +460,7 @@ func exploreProg(c *core.Ctx, m *mapRunner, p prog, bound int, sitesSeen map[str
 	first := true
 	reported := map[string]bool{}
 	distinct := map[string]bool{}
-	st, div := explore.Explore(bound, 60000, nil, func() { cur = run() }, func(x *explore.Exec) bool {
+	st, div := explore.Explore(bound, map[bool]int{false: 60000, true: 400000}[c.Thorough()], nil, func() { cur = run() }, func(x *explore.Exec) bool {
 		c.Eval(1)
 		c.State(1)
 		c.Transition(len(x.Points))
